@@ -34,7 +34,7 @@ def subsets(n):
     return [[j for j in range(n) if (m >> j) & 1] for m in range(1 << n)]
 
 
-HIST_ALPHA = {'build': 8, 'apply': 3, 'quantify': 16, 'drop': 6, 'gc': 5, 'swap': 3, 'sift': 1, 'reorder_to': 1, 'cube': 2, 'declare': 1}
+HIST_ALPHA = {'build': 8, 'apply': 3, 'quantify': 16, 'drop': 6, 'gc': 5, 'swap': 3, 'sift': 1, 'reorder_to': 1, 'cube': 2, 'declare': 1, 'undeclare': 4, 'add_var': 1, 'let_rename': 1, 'gc_roots': 1}
 
 
 def _hist_nontrivial(w):
@@ -42,7 +42,7 @@ def _hist_nontrivial(w):
 
 
 def _hist_plan(tier, seed):
-    cfgs = [dict(kind='bdd', nmax=4, init_vars=3), dict(kind='autoref', nmax=5, init_vars=4), dict(kind='autoref', nmax=5, init_vars=4, reordering=True, reorder_starts=4), dict(kind='bdd', nmax=5, init_vars=4, reordering=True, reorder_starts=2)]
+    cfgs = [dict(kind='bdd', nmax=4, init_vars=3), dict(kind='autoref', nmax=5, init_vars=4), dict(kind='autoref', nmax=5, init_vars=4, reordering=True, reorder_starts=4), dict(kind='bdd', nmax=5, init_vars=4, reordering=True, reorder_starts=2), dict(kind='bdd', nmax=10, init_vars=9, semantic=False), dict(kind='bdd', nmax=12, init_vars=11, semantic=False), dict(kind='autoref', nmax=10, init_vars=10, semantic=False)]
     return [dict(kind='history', seed=seed * 1000 + 500 + s, cfgs=cfgs,
                  examples=1200 if tier == 'thorough' else 200,
                  min_len=10, max_len=45)
